@@ -300,4 +300,134 @@ theorem applyYears_equivariant2 {α} (g g' : YearFn α) (φ ψ : α → α) (L S
     | error e => rfl
     | ok vals => simp only [Except.map, pairsFor_map]
 
+/-! ### lifting, continued: the per-window relation is only needed on the windows that are actually formed -/
+
+section lift_on
+open Model.Skeleton Model.Windows Lemmas.Lift
+
+theorem applyLocationRW_equivariant_on {α} (f : WinFn α) (φo φh φx ψ : α → α) (L S : Int) (dO dH dF : List Int)
+    (obs hist fut : List α)
+    (hf : ∀ c, f ((take obs (idxWindow L dO c)).map φo) ((take hist (idxWindow L dH c)).map φh)
+        ((take fut (idxWindow L dF c)).map φx) (idxWindow L dO c) (idxWindow L dH c) (idxWindow L dF c)
+      = (f (take obs (idxWindow L dO c)) (take hist (idxWindow L dH c)) (take fut (idxWindow L dF c))
+          (idxWindow L dO c) (idxWindow L dH c) (idxWindow L dF c)).map (List.map ψ)) :
+    applyLocationRW f L S dO dH dF (obs.map φo) (hist.map φh) (fut.map φx) =
+      (applyLocationRW f L S dO dH dF obs hist fut).map (List.map (Option.map ψ)) := by
+  unfold applyLocationRW
+  rw [List.length_map]
+  apply runLoop_map _ _ ψ
+  intro c _
+  unfold windowWrites
+  simp only [take_map, hf, bind, Except.bind]
+  cases f (take obs (idxWindow L dO c)) (take hist (idxWindow L dH c)) (take fut (idxWindow L dF c))
+      (idxWindow L dO c) (idxWindow L dH c) (idxWindow L dF c) with
+  | error e => rfl
+  | ok res =>
+    simp only [Except.map, maskSelect_map]
+    cases maskSelect res (List.map (fun j => (idxAdjust S dF c).contains j) (idxWindow L dF c)) with
+    | error e => rfl
+    | ok vals => simp only [Except.map, pairsFor_map]
+
+theorem applyLocationMonths_equivariant_on {α} (f : WinFn α) (φo φh φx ψ : α → α) (mO mH mF : List Int)
+    (obs hist fut : List α)
+    (hf : ∀ m : Int,
+      f ((take obs (Py.whereTrue (mO.map (fun x => decide (x = m))))).map φo)
+        ((take hist (Py.whereTrue (mH.map (fun x => decide (x = m))))).map φh)
+        ((take fut (Py.whereTrue (mF.map (fun x => decide (x = m))))).map φx)
+        (Py.whereTrue (mO.map (fun x => decide (x = m)))) (Py.whereTrue (mH.map (fun x => decide (x = m))))
+        (Py.whereTrue (mF.map (fun x => decide (x = m))))
+      = (f (take obs (Py.whereTrue (mO.map (fun x => decide (x = m)))))
+          (take hist (Py.whereTrue (mH.map (fun x => decide (x = m)))))
+          (take fut (Py.whereTrue (mF.map (fun x => decide (x = m)))))
+          (Py.whereTrue (mO.map (fun x => decide (x = m)))) (Py.whereTrue (mH.map (fun x => decide (x = m))))
+          (Py.whereTrue (mF.map (fun x => decide (x = m))))).map (List.map ψ)) :
+    applyLocationMonths f mO mH mF (obs.map φo) (hist.map φh) (fut.map φx) =
+      (applyLocationMonths f mO mH mF obs hist fut).map (List.map (Option.map ψ)) := by
+  unfold applyLocationMonths
+  rw [List.length_map]
+  apply runLoop_map _ _ ψ
+  intro m _
+  unfold monthWrites
+  simp only [take_map, hf, bind, Except.bind]
+  cases f (take obs (Py.whereTrue (mO.map (fun x => decide (x = m))))) (take hist (Py.whereTrue (mH.map (fun x => decide (x = m)))))
+      (take fut (Py.whereTrue (mF.map (fun x => decide (x = m))))) (Py.whereTrue (mO.map (fun x => decide (x = m))))
+      (Py.whereTrue (mH.map (fun x => decide (x = m)))) (Py.whereTrue (mF.map (fun x => decide (x = m)))) with
+  | error e => rfl
+  | ok res => simp only [Except.map, pairsFor_map]
+
+/-- fancy indexing two parallel lists with the same index list gives parallel results -/
+theorem take_length_eq {α β} (x : List α) (y : List β) (h : x.length = y.length) (idx : List Nat) :
+    (take x idx).length = (take y idx).length := by
+  unfold take
+  induction idx with
+  | nil => rfl
+  | cons i t ih =>
+    simp only [List.filterMap_cons]
+    by_cases hi : i < x.length
+    · have hi' : i < y.length := h ▸ hi
+      rw [List.getElem?_eq_getElem hi, List.getElem?_eq_getElem hi']
+      simp [ih]
+    · have hi' : ¬ i < y.length := h ▸ hi
+      rw [List.getElem?_eq_none (by omega), List.getElem?_eq_none (by omega)]
+      simp [ih]
+
+end lift_on
+
+/-! ### window functions in the `Skeleton.WinFn` shape
+
+  `apply_on_window` is a partial function: on an empty window sample (or a fitted scale of 0) the Python code
+  computes with NaN / divides by zero.  The model's definitions are total (`x / 0 = 0`), so a windowed statement is
+  made about the *guarded* window function, which reports `undef` outside the domain — and the guard is itself
+  invariant under the change of unit, so both runs leave the domain on the same windows. -/
+
+open Model.Skeleton in
+/-- a pure per-window function with a decidable domain guard, as a `WinFn` -/
+def guardedWin (G : List Rat → List Rat → List Rat → Bool) (f : List Rat → List Rat → List Rat → List Rat) :
+    WinFn Rat :=
+  fun o h x _ _ _ => if G o h x then .ok (f o h x) else .error "undef"
+
+open Model.Skeleton in
+/-- the hypothesis of the lifting lemmas for a guarded window function -/
+theorem guardedWin_affine (G : List Rat → List Rat → List Rat → Bool) (f : List Rat → List Rat → List Rat → List Rat)
+    (a b : Rat)
+    (hG : ∀ o h x, G (affine a b o) (affine a b h) (affine a b x) = G o h x)
+    (hf : ∀ o h x, G o h x = true → f (affine a b o) (affine a b h) (affine a b x) = affine a b (f o h x)) :
+    ∀ o h x io ih ix, guardedWin G f (o.map (fun v => a * v + b)) (h.map (fun v => a * v + b))
+        (x.map (fun v => a * v + b)) io ih ix
+      = (guardedWin G f o h x io ih ix).map (List.map (fun v => a * v + b)) := by
+  intro o h x io ih ix
+  unfold guardedWin
+  have := hG o h x
+  unfold affine at this
+  rw [this]
+  split_ifs with hg
+  · have := hf o h x hg
+    unfold affine at this
+    simp only [Except.map]
+    rw [this]
+  · rfl
+
+/-- the values a year loop left unassigned (`none`) would be uninitialised memory in the result of
+    `apply_on_window`: reported as the error `unassigned` (C07 shows it does not happen for consecutive years) -/
+def collapse (r : Except String (List (Option Rat))) : Except String (List Rat) :=
+  match r with
+  | .error e => .error e
+  | .ok l => if l.all (fun v => v.isSome) then .ok (l.filterMap id) else .error "unassigned"
+
+theorem collapse_map (g : Rat → Rat) (r : Except String (List (Option Rat))) :
+    collapse (r.map (List.map (Option.map g))) = (collapse r).map (List.map g) := by
+  cases r with
+  | error e => rfl
+  | ok l =>
+    simp only [Except.map, collapse, List.all_map]
+    have : ((fun v : Option Rat => v.isSome) ∘ Option.map g) = (fun v : Option Rat => v.isSome) := by
+      funext v; cases v <;> rfl
+    rw [this]
+    split_ifs
+    · simp only [Except.map]
+      congr 1
+      rw [List.filterMap_map, List.map_filterMap]
+      rfl
+    · rfl
+
 end Lemmas.C04
